@@ -47,13 +47,13 @@ pub fn plan(prop: &str, thorough: bool) -> Vec<EnginePlan> {
     let wd = if prop == "C09" { if thorough { 400 } else { 90 } } else if thorough { 1500 } else { 400 };
     let seq = |q: u32, t: u32| EnginePlan { engine: "seq", workers: 16, cases_per_worker: if thorough { t } else { q }, timeout_s: wd };
     match prop {
-        "C01" | "C05" | "C06" | "C07" | "C16" => v.push(seq(2500, 20000)),
-        "C03" | "C04" | "C10" | "C11" => v.push(seq(2500, 20000)),
-        "C08" => v.push(seq(1500, 10000)),
-        "C09" => v.push(seq(150, 600)),
-        "C12" | "C13" => v.push(seq(2500, 20000)),
-        "C14" => v.push(seq(1200, 8000)),
-        "C15" => v.push(seq(2000, 15000)),
+        "C01" | "C05" | "C06" | "C07" | "C16" => v.push(seq(6000, 20000)),
+        "C03" | "C04" | "C10" | "C11" => v.push(seq(6000, 20000)),
+        "C08" => v.push(seq(3000, 10000)),
+        "C09" => v.push(seq(300, 600)),
+        "C12" | "C13" => v.push(seq(6000, 20000)),
+        "C14" => v.push(seq(2500, 8000)),
+        "C15" => v.push(seq(5000, 15000)),
         _ => {}
     }
     for e in crate::extra_engines(prop, thorough) {
@@ -187,7 +187,7 @@ pub fn run(a: &RunArgs) -> i32 {
                 .arg("--dir").arg(&edir)
                 .arg("--open").arg(open.join(","))
                 .stdout(Stdio::null())
-                .stderr(Stdio::piped())
+                .stderr(Stdio::from(std::fs::File::create(edir.join(format!("worker-{i}.stderr.log"))).expect("create log")))
                 .spawn()
                 .expect("spawn worker");
             children.push((i, child));
@@ -253,11 +253,7 @@ pub fn run(a: &RunArgs) -> i32 {
                 },
                 Some(st) => {
                     // crashed: abort, segfault, ... The in-flight case is the witness.
-                    let mut stderr = String::new();
-                    if let Some(mut e) = child.stderr.take() {
-                        use std::io::Read;
-                        let _ = e.read_to_string(&mut stderr);
-                    }
+                    let stderr = std::fs::read_to_string(edir.join(format!("worker-{i}.stderr.log"))).unwrap_or_default();
                     let tail: String = stderr.lines().rev().take(6).collect::<Vec<_>>().into_iter().rev().collect::<Vec<_>>().join(" | ");
                     if inflight.exists() {
                         let keep = dir.join(format!("crash-{}-{}.json", pl.engine, i));
@@ -488,6 +484,8 @@ fn run_fuzz(a: &RunArgs, pl: &EnginePlan, dir: &Path) -> Merged {
                 let _ = std::fs::write(corpus.join(format!("seed{i}")), seed);
             }
             let stats = fdir.join(format!("stats-{t}-{widx}.json"));
+            // libFuzzer is chatty: its stderr goes to a file (a pipe nobody drains would block it)
+            let errfile = std::fs::File::create(fdir.join(format!("stderr-{t}-{widx}.log"))).expect("create log");
             let child = Command::new(&bin)
                 .arg(&corpus)
                 .arg(format!("-runs={}", pl.cases_per_worker))
@@ -499,7 +497,7 @@ fn run_fuzz(a: &RunArgs, pl: &EnginePlan, dir: &Path) -> Merged {
                 .env("VERIF_FUZZ_STATS", &stats)
                 .env("ASAN_OPTIONS", "detect_leaks=0")
                 .stdout(Stdio::null())
-                .stderr(Stdio::piped())
+                .stderr(Stdio::from(errfile))
                 .spawn();
             match child {
                 Ok(c) => children.push((t.to_string(), widx, c)),
@@ -537,11 +535,7 @@ fn run_fuzz(a: &RunArgs, pl: &EnginePlan, dir: &Path) -> Merged {
         match status {
             Some(st) if st.success() => {}
             Some(st) => {
-                let mut stderr = String::new();
-                if let Some(mut e) = child.stderr.take() {
-                    use std::io::Read;
-                    let _ = e.read_to_string(&mut stderr);
-                }
+                let stderr = std::fs::read_to_string(fdir.join(format!("stderr-{t}-{i}.log"))).unwrap_or_default();
                 let vline = stderr.lines().find(|l| l.starts_with("VIOLATION property="));
                 if vline.is_none() {
                     // a sanitizer report or a crash outside the oracle
